@@ -31,6 +31,41 @@ TRUSTED = ['numpy: rng.random samples [0, 1); nan_to_num(0/0) = 0',
 VIS = 'gym_gridverse/envs/visibility_functions.py'
 
 
+def _cells_only_opacity(fn: ast.AST, objects_attr: ast.AST, parents) -> bool:
+    """`G.objects` is iterated by a comprehension (`for row in G.objects for obj in row`, or
+    indexed `G.objects[y][x]`) and every cell obtained is used only as `<cell>.blocks_vision`"""
+    par = parents.get(id(objects_attr))
+    # indexed twice, then .blocks_vision
+    if isinstance(par, ast.Subscript) and par.value is objects_attr:
+        p2 = parents.get(id(par))
+        if isinstance(p2, ast.Subscript) and p2.value is par:
+            p3 = parents.get(id(p2))
+            return isinstance(p3, ast.Attribute) and p3.attr == 'blocks_vision'
+        return False
+    # iterated row by row inside one comprehension
+    if isinstance(par, ast.comprehension) and par.iter is objects_attr and \
+            isinstance(par.target, ast.Name):
+        comp = parents.get(id(par))
+        if not isinstance(comp, (ast.ListComp, ast.GeneratorExp, ast.SetComp)):
+            return False
+        row = par.target.id
+        cells = [g.target.id for g in comp.generators
+                 if isinstance(g.iter, ast.Name) and g.iter.id == row
+                 and isinstance(g.target, ast.Name)]
+        if len(cells) != 1:
+            return False
+        for n in ast.walk(comp):
+            if isinstance(n, ast.Name) and isinstance(n.ctx, ast.Load):
+                pn = parents.get(id(n))
+                if n.id == cells[0] and not (isinstance(pn, ast.Attribute)
+                                             and pn.attr == 'blocks_vision'):
+                    return False
+                if n.id == row and not (isinstance(pn, ast.comprehension) and pn.iter is n):
+                    return False
+        return True
+    return False
+
+
 def grid_reads(f: Func, gname: str) -> List[ast.AST]:
     """all uses of the grid parameter with their parent chain classification"""
     parents: Dict[int, ast.AST] = {}
@@ -49,6 +84,9 @@ def grid_reads(f: Func, gname: str) -> List[ast.AST]:
                 bad.append(pp if pp is not None else p)
             elif isinstance(p, ast.Attribute) and p.attr in ('shape', 'area'):
                 continue
+            elif isinstance(p, ast.Attribute) and p.attr == 'objects' and \
+                    _cells_only_opacity(f.node, p, parents):
+                continue   # the rows are scanned, and each cell only asked for its opacity
             elif isinstance(p, ast.Call) and n in p.args:
                 continue   # passed on to a helper (analysed itself)
             else:
@@ -80,9 +118,9 @@ def check_ray_function(index, rep, f: Func) -> Optional[ast.For]:
     node, inl = inlined_function(index, f)
     outer, inner = ray_loop(node)
     if outer is None:
-        rep.violation('C06.R2', VIS, name, f.node.lineno, name,
-                      'no `for ray in rays: ... for pos in ray:` loop nest found')
-        return None
+        # rays counted some other way (vectorised, library call): not a verdict
+        raise AnalysisError(f'{name}: no `for ray in rays: ... for pos in ray:` loop nest '
+                            f'(the ray counting is outside the grammar of C06.R2)')
     w = walk_function(node)
     # rays come from the cached fan of the grid's area at the given position
     pname = f.node.args.args[1].arg
